@@ -1398,8 +1398,10 @@ func (c *Cluster) pin(
 		return pin, false, errors.New("bad pin object")
 	}
 
-	// Handle pin updates when the option is set
-	if update := pin.PinUpdate; update != cid.Undef && !update.Equals(pin.Cid) {
+	// Handle pin updates when the option is set. When re-pinning away
+	// from a peer (blacklist set) the pin already exists with its own
+	// options and needs new allocations, not those of the update source.
+	if update := pin.PinUpdate; update != cid.Undef && !update.Equals(pin.Cid) && len(blacklist) == 0 {
 		pin, err := c.PinUpdate(ctx, update, pin.Cid, pin.PinOptions)
 		return pin, true, err
 	}
